@@ -126,6 +126,14 @@ def enumerated(th, tier):
             S.append(('mpn_mul', max(un, vn), min(un, vn), cu, cv))
         S.append(('mpn_sqr', un, 'bit'))
         S.append(('mpn_mul', 2 * un, vn // 2 + 1000, 'bit', 'runs'))
+    # (5c) the same limb vector as both operands with different lengths (mpn_mul (p, u, un, u, vn), vn < un: u times its own low part): the sources
+    # may overlap freely, and 'same pointer' must not be taken for 'squaring' in any regime (F19)
+    F = th['MUL_FFT_FULL_THRESHOLD']
+    for un in sorted(set([2, 3, 5, 10, 30, 31, 64, 100, 200, 400, 700, 1200, 2500, F - 1, F, F + 1, F + 100, 2 * F, 3 * F, 6000, 8000] + ([] if q else gen.ladder(40, 3 * F, 1.3)))):
+        for vn in sorted({1, 2, un // 3, un // 2, un - 1, min(un - 1, F), min(un - 1, F + 1)}):
+            if 1 <= vn < un: S.append(('mpn_mul_sameptr', un, vn, 'rand')); S.append(('mpn_mul_sameptr', un, vn, 'ones'))
+    for un, vn in [(40000, 30000), (36000, 35999)] + ([] if q else [(70000, 33000), (100000, 4000)]):
+        S.append(('mpn_mul_sameptr', un, vn, 'rand'))
     # direct fft entry at smaller sizes: every shape it accepts from its own minimum
     for n1 in ([40, 64, 100, 130, 200, 257, 400, 700, 1025, 1500, 2100, 3000] if q else gen.ladder(34, 3400, 1.12)):
         for n2 in sorted({n1, max(1, n1 // 2), max(1, n1 // 5) + 1, n1 - 1}):
@@ -210,6 +218,15 @@ def build(spec, env):
                 got = I(v[0].split('=')[1])
                 if got != p: return [('%s:wrong-product' % fn, 'n1=%d n2=%d' % (un, vn))]
         return Case(cmds, check, 1, (fn, arm(un, vn, th), szb(un), szb(vn) if un < 48 else (vn * 16 // un), cu, cv), trivial=(a <= 1 or b <= 1))
+    if kind == 'mpn_mul_sameptr':
+        _, un, vn, cls = spec[:4]
+        a = gen.nat(r, un, cls); b = a & ((1 << (64 * vn)) - 1)
+        cmds = ['l 0 %d %s' % (un, hx(a)), 'ping', 'c mpn_mul L2:%d L0 #%d L0 #%d' % (un + vn, un, vn)]
+        def check(rep, a=a, b=b, un=un, vn=vn):
+            v, _ = split_reply(rep[2])
+            got = I(v[-1].split('=')[1])
+            if got != a * b: return [('mpn_mul:wrong-product:same-pointer-different-lengths:%s' % arm(un, vn, th), 'un=%d vn=%d%s' % (un, vn, ' (got u*u truncated?)' if got == (a * a) % (1 << (64 * (un + vn))) else ''))]
+        return Case(cmds, check, 1, ('mpn_mul_sameptr', arm(un, vn, th), szb(un), vn * 16 // un, cls), trivial=(b <= 1))
     if kind in ('mpn_mul_n', 'mpn_sqr', 'mpn_mul_same'):
         n = spec[1]; a = gen.nat(r, n, spec[2])
         if kind == 'mpn_mul_n':
